@@ -1113,3 +1113,199 @@ Example ex_frag_cache_key_complete :
   frag_buf (snd (precache_frag ck_codec (read_at ck_img) 4 d1 1)) = ([10; 11; 12; 13], 4) /\
   fst (precache_frag ck_codec (read_at ck_img) 4 d1 2) = Err 0%Z.
 Proof. vm_compute. repeat split; reflexivity. Qed.
+
+(* ================= sqfs_copy of readers as an operation (session 4) =================
+   lib/sqfs/src/meta_reader.c meta_reader_copy: memcpy of the whole object into a new allocation; the file and the
+   compressor are shared by counted reference (C10/CopyModel.v).  A family of reader objects over one file: [FOp i op]
+   runs the MetaModel step [op] on object i, [FCopy i] appends sqfs_copy(object i).  Every history starts from ONE
+   freshly created reader; every other object is a copy (of a copy ...) taken at an arbitrary moment. *)
+From SqfsV Require Import C10.CopyModel C10.CopyProofs.
+
+(* cache coherence holds for every object of the family after every family history *)
+Theorem meta_family_coherent :
+  forall (uncompress : list N -> N -> uresult) (file : N -> N -> rd_res) (fsize : N) (start limit : N)
+         (ops : list fop) (j : nat) (m : mr),
+  limit <= c10_meta_init_tag ->
+  nth_error (snd (frun uncompress file fsize true [mr_create start limit] ops)) j = Some m ->
+  coherent uncompress file m /\ m_start m = start /\ m_limit m = limit.
+Proof. exact meta_family_coherent_l. Qed.
+Print Assumptions meta_family_coherent.
+
+(* after any family history (calls on any objects, copies of any objects, interleaved), the result of any call on
+   any object j equals the stateless specification of that call: the same call on a reader that has just fetched
+   the block of object j's current (block, offset) position from the image *)
+Theorem meta_family_history_free :
+  forall (uncompress : list N -> N -> uresult) (file : N -> N -> rd_res) (fsize : N) (start limit : N)
+         (ops : list fop) (j : nat) (m : mr) (op : mop),
+  limit <= c10_meta_init_tag ->
+  let fam := snd (frun uncompress file fsize true [mr_create start limit] ops) in
+  nth_error fam j = Some m ->
+  fst (fstep uncompress file fsize true fam (FOp j op)) =
+    FAns (spec_step uncompress file fsize true start limit (pos_of m) op).
+Proof. exact meta_family_history_free_l. Qed.
+Print Assumptions meta_family_history_free.
+
+Corollary meta_family_history_free_image :
+  forall (uncompress : list N -> N -> uresult) (img : list N) (start limit : N)
+         (ops : list fop) (j : nat) (m : mr) (op : mop),
+  limit <= c10_meta_init_tag ->
+  let fam := snd (frun uncompress (read_at img) (len img) true [mr_create start limit] ops) in
+  nth_error fam j = Some m ->
+  fst (fstep uncompress (read_at img) (len img) true fam (FOp j op)) =
+    FAns (spec_step uncompress (read_at img) (len img) true start limit (pos_of m) op).
+Proof. intros u img. exact (meta_family_history_free_l u (read_at img) (len img)). Qed.
+
+(* a query that starts with a seek, on any object of the family after any family history, answers exactly as on a
+   freshly created reader: the status of the seek always, every later answer whenever the seek succeeds *)
+Theorem meta_family_query_fresh :
+  forall (uncompress : list N -> N -> uresult) (file : N -> N -> rd_res) (fsize : N) (start limit : N)
+         (ops : list fop) (j : nat) (m : mr) (b o : N) (rest : list mop),
+  limit <= c10_meta_init_tag ->
+  let fam := snd (frun uncompress file fsize true [mr_create start limit] ops) in
+  nth_error fam j = Some m ->
+  let r_fam := fst (frun uncompress file fsize true fam (map (FOp j) (MSeek b o :: rest))) in
+  let r_fresh := map FAns (fst (run uncompress file fsize true (mr_create start limit) (MSeek b o :: rest))) in
+  hd_error r_fam = hd_error r_fresh /\
+  (hd_error r_fresh = Some (FAns (RSeek (Ok tt))) -> r_fam = r_fresh).
+Proof. exact meta_family_query_fresh_l. Qed.
+Print Assumptions meta_family_query_fresh.
+
+(* frame: operations that are not aimed at object j (calls on other objects, copies of any object, j included)
+   leave the state of object j unchanged *)
+Theorem family_frame :
+  forall (uncompress : list N -> N -> uresult) (file : N -> N -> rd_res) (fsize : N)
+         (ops : list fop) (fam : list mr) (j : nat) (m : mr),
+  nth_error fam j = Some m -> forallb (fun o => negb (touches j o)) ops = true ->
+  nth_error (snd (frun uncompress file fsize true fam ops)) j = Some m.
+Proof. exact frun_frame_l. Qed.
+Print Assumptions family_frame.
+
+(* the copy and its source: sqfs_copy(object i) yields object c = the next free index; both hold the state of the
+   source; any calls on the copy get the answers the source would have given at the time of the copy and leave the
+   source's state unchanged, and vice versa *)
+Theorem copy_independent :
+  forall (uncompress : list N -> N -> uresult) (file : N -> N -> rd_res) (fsize : N)
+         (fam : list mr) (i : nat) (m : mr) (mops : list mop),
+  nth_error fam i = Some m ->
+  let fam1 := snd (fstep uncompress file fsize true fam (FCopy i)) in
+  let c := length fam in
+  fst (fstep uncompress file fsize true fam (FCopy i)) = FCopied c /\
+  nth_error fam1 i = Some m /\ nth_error fam1 c = Some m /\
+  (fst (frun uncompress file fsize true fam1 (map (FOp c) mops)) = map FAns (fst (run uncompress file fsize true m mops)) /\
+   nth_error (snd (frun uncompress file fsize true fam1 (map (FOp c) mops))) i = Some m) /\
+  (fst (frun uncompress file fsize true fam1 (map (FOp i) mops)) = map FAns (fst (run uncompress file fsize true m mops)) /\
+   nth_error (snd (frun uncompress file fsize true fam1 (map (FOp i) mops))) c = Some m).
+Proof. exact copy_independent_l. Qed.
+Print Assumptions copy_independent.
+
+(* ---- non-vacuity ----
+   image f02_img (block A at 0: 1 2 3 4; block B at 6: 9 9).  Object 0 seeks into A and reads; object 1 = copy of
+   object 0 goes to B while object 0 keeps reading A; object 2 = copy of object 1 at the end of B; then object 0
+   moves to B too.  The hypotheses [nth_error fam j = Some m] hold for j = 0, 1, 2 with three different positions. *)
+Definition copy_hist : list fop :=
+  [FOp 0 (MSeek 0 1); FOp 0 (MRead 1); FCopy 0; FOp 1 (MSeek 6 0); FOp 0 (MRead 1); FOp 1 (MRead 2);
+   FOp 0 MGetPos; FOp 1 MGetPos; FCopy 1; FOp 2 (MRead 1); FOp 1 (MSeek 0 0); FOp 0 (MSeek 6 1); FOp 0 (MRead 1);
+   FOp 1 (MRead 1); FOp 3 MGetPos].
+Example ex_copy_history :
+  fst (frun no_codec (read_at f02_img) (len f02_img) true [mr_create 0 10] copy_hist) =
+    [FAns (RSeek (Ok tt)); FAns (RRead (Ok [2])); FCopied 1; FAns (RSeek (Ok tt)); FAns (RRead (Ok [3]));
+     FAns (RRead (Ok [9; 9])); FAns (RPos (0, 3)); FAns (RPos (10, 0)); FCopied 2;
+     FAns (RRead (Err c_SQFS_ERROR_OUT_OF_BOUNDS)); FAns (RSeek (Ok tt)); FAns (RSeek (Ok tt)); FAns (RRead (Ok [9]));
+     FAns (RRead (Ok [1])); FBad].
+Proof. vm_compute. reflexivity. Qed.
+Example ex_copy_family_positions :
+  map pos_of (snd (frun no_codec (read_at f02_img) (len f02_img) true [mr_create 0 10] copy_hist)) =
+    [Some (6, 2); Some (0, 1); Some (6, 2)].
+Proof. vm_compute. reflexivity. Qed.
+(* a family with a copy that diverges, on the code as found (fx = false): the stale-tag defect F02 travels with the
+   copy (the copy of a poisoned reader answers 9 9 for A), the source of the copy being the poisoned object *)
+Example ex_copy_unrepaired :
+  fst (frun no_codec (read_at f02_img) (len f02_img) false [mr_create 0 10]
+         [FOp 0 (MSeek 0 0); FOp 0 (MSeek 6 5); FCopy 0; FOp 1 (MSeek 0 0); FOp 1 (MRead 2)]) =
+    [FAns (RSeek (Ok tt)); FAns (RSeek (Err c_SQFS_ERROR_OUT_OF_BOUNDS)); FCopied 1; FAns (RSeek (Ok tt));
+     FAns (RRead (Ok [9; 9]))].
+Proof. vm_compute. reflexivity. Qed.
+
+(* ---- data_reader_copy (lib/sqfs/src/data_reader.c) ----
+   Code as found (fx = false): the cached data and fragment blocks are duplicated into allocations of [data_blk_size] /
+   [frag_blk_size] bytes = the number of VALID bytes, whereas get_block() allocates block_size bytes: NOT a deep copy.
+   Repaired code (fx = true, props/C19/fixes/F31-data-reader-copy-block-buffer-size.patch, in /repo): the copy's
+   buffers are alloc_array(1, block_size) + the valid bytes (C10/DataCopyModel.v). *)
+From SqfsV Require Import C10.DataCopyModel C10.DataCopyProofs.
+
+(* repaired code: the copy IS the source state whenever the source's cached buffers hold zeros beyond their valid
+   counts (what get_block leaves unless the codec wrote beyond its return value) *)
+Theorem data_copy_exact :
+  forall (bs : N) (d : dr), dr_clean bs d -> dr_copy true bs d = d.
+Proof. exact data_copy_exact_l. Qed.
+Print Assumptions data_copy_exact.
+
+(* repaired code, always: the copy's buffers are block_size bytes long with the source's table, keys, valid counts and
+   valid bytes; every read of the cached data block at offset + diff <= block_size stays inside the copy's buffer *)
+Theorem data_copy_in_bounds :
+  forall (bs : N) (d : dr),
+  dr_fits bs d ->
+  d_tbl (dr_copy true bs d) = d_tbl d /\
+  (forall l w b, d_blk d = Some (l, w, b) ->
+     exists b', d_blk (dr_copy true bs d) = Some (l, w, b') /\ len (fst b') = bs /\ snd b' = snd b /\
+                firstn (N.to_nat (snd b)) (fst b') = firstn (N.to_nat (snd b)) (fst b)) /\
+  (forall i b, d_frag d = Some (i, b) ->
+     exists b', d_frag (dr_copy true bs d) = Some (i, b') /\ len (fst b') = bs /\ snd b' = snd b /\
+                firstn (N.to_nat (snd b)) (fst b') = firstn (N.to_nat (snd b)) (fst b)) /\
+  (forall offset diff, d_blk d <> None -> offset + diff <= bs -> blk_read_in_bounds (dr_copy true bs d) offset diff = true).
+Proof. exact data_copy_in_bounds_l. Qed.
+Print Assumptions data_copy_in_bounds.
+
+(* code as found: exact only when the cached blocks are full *)
+Theorem data_copy_exact_when_full :
+  forall (bs : N) (d : dr), dr_full d -> dr_copy false bs d = d.
+Proof. exact data_copy_exact_when_full_l. Qed.
+Print Assumptions data_copy_exact_when_full.
+
+Theorem data_copy_preserves :
+  forall (bs : N) (d : dr),
+  d_tbl (dr_copy false bs d) = d_tbl d /\
+  option_map (fun x => (fst (fst x), snd (fst x), snd (snd x))) (d_blk (dr_copy false bs d)) =
+    option_map (fun x => (fst (fst x), snd (fst x), snd (snd x))) (d_blk d) /\
+  option_map (fun x => (fst x, snd (snd x))) (d_frag (dr_copy false bs d)) = option_map (fun x => (fst x, snd (snd x))) (d_frag d) /\
+  (forall l w b, d_blk d = Some (l, w, b) -> firstn (N.to_nat (snd b)) (blk_buf (dr_copy false bs d)) = firstn (N.to_nat (snd b)) (fst b)) /\
+  (forall i b, d_frag d = Some (i, b) -> firstn (N.to_nat (snd b)) (fst (frag_buf (dr_copy false bs d))) = firstn (N.to_nat (snd b)) (fst b)).
+Proof. exact data_copy_preserves_l. Qed.
+Print Assumptions data_copy_preserves.
+
+(* code as found, with a short block cached (damaged image: a raw block shorter than the inode's file size needs): the
+   copy is not equivalent to its source: sqfs_data_reader_read on the copy hits the copied cache key and copies bytes
+   from beyond the end of the copy's (shorter) buffer, where the source and a fresh reader deliver the zero fill
+   (DESIGN F31; confirmed under ASan; tie: op DC of the size leg) *)
+Theorem data_copy_short_block_refuted :
+  exists img bs f,
+    let d1 := snd (api_read ck_codec (read_at img) bs true DataModel.dr_create f 0 4) in
+    fst (api_read ck_codec (read_at img) bs true d1 f 0 4) = Ok [10; 11; 0; 0] /\
+    blk_read_in_bounds d1 0 4 = true /\
+    snd (precache_data ck_codec (read_at img) bs true (dr_copy false bs d1) 0 (ck_flag + 2)) = dr_copy false bs d1 /\
+    blk_read_in_bounds (dr_copy false bs d1) 0 4 = false /\
+    fst (api_read ck_codec (read_at img) bs true (dr_copy false bs d1) f 0 4) <> fst (api_read ck_codec (read_at img) bs true d1 f 0 4).
+Proof. exact data_copy_short_block_refuted_l. Qed.
+Print Assumptions data_copy_short_block_refuted.
+
+(* ---- non-vacuity ---- *)
+(* the witness on the repaired code: the state with the short block cached is clean and fits; its copy is the state
+   itself, the read on the copy stays inside and answers as the source *)
+Example ex_data_copy_repaired :
+  let d1 := snd (api_read ck_codec (read_at ck_img) 4 true DataModel.dr_create dc_inode 0 4) in
+  d_blk d1 = Some (0, ck_flag + 2, ([10; 11; 0; 0], 2)) /\ dr_clean 4 d1 /\ dr_fits 4 d1 /\ dr_copy true 4 d1 = d1 /\
+  blk_read_in_bounds (dr_copy true 4 d1) 0 4 = true /\
+  fst (api_read ck_codec (read_at ck_img) 4 true (dr_copy true 4 d1) dc_inode 0 4) = Ok [10; 11; 0; 0].
+Proof. vm_compute. repeat split; try reflexivity; discriminate. Qed.
+(* a buffer the codec scribbled on beyond its return value (valid 2, tail 7 7): not clean; the repaired copy zeroes the
+   tail - the one place where copy and source differ (bytes no comparison of the check looks at) *)
+Example ex_data_copy_scribbled :
+  let d := DataModel.mkDr [] (Some (0, 2, ([10; 11; 7; 7], 2))) None in
+  dr_fits 4 d /\ dr_copy true 4 d = DataModel.mkDr [] (Some (0, 2, ([10; 11; 0; 0], 2))) None.
+Proof. vm_compute. repeat split; try reflexivity; discriminate. Qed.
+(* non-vacuity of [dr_full]: a full raw block cached by a real call; the copy (either code) is the state itself *)
+Example ex_data_copy_full :
+  let d1 := snd (api_read ck_codec (read_at ck_img) 4 true DataModel.dr_create (mkFinode 4 0 0 0 [ck_flag + 4]) 0 4) in
+  blk_buf d1 = [10; 11; 12; 13] /\ dr_full d1 /\ dr_copy false 4 d1 = d1 /\ dr_copy true 4 d1 = d1 /\
+  fst (api_read ck_codec (read_at ck_img) 4 true (dr_copy false 4 d1) (mkFinode 4 0 0 0 [ck_flag + 4]) 1 2) = Ok [11; 12].
+Proof. vm_compute. repeat split; reflexivity. Qed.
